@@ -23,10 +23,11 @@ LEVEL_TEXT = ('Every golden source and 6 generated programs (macros, includes, s
               'values must agree between listing table, MAP symbol section and share file.'
               ' Share files are also written with -h (lower-case hexadecimal); every value of the assembler-format file must be a number in the target\'s syntax.'
               ' One generated source defines 22 float symbols; the symbol table must show digits of their values.'
-              " Added in the last round: every symbol of the listing's table must be in the MAP file (section NOTHING).")
+              " Added in the last round: every symbol of the listing's table must be in the MAP file (section NOTHING)."
+              ' Shared string symbols whose text contains quotes, apostrophes and backslashes are read back from each share format by that format\'s rules.')
 LEVEL_NOTE = ('Trusted: hook H3 (guarded by FLAMEWING_ASL_RELEASES_VERIF) as neutral witness, cross-checked against the code file in every run; '
               'listing/MAP/share parsers written from the observed layouts. Sources using retraction (parallel instructions merged into the previous '
-              'line) are checked for trace==code file and MAP only. Shared string symbols whose text contains quotes, apostrophes and backslashes are read back from each share format by that format\'s rules.')
+              'line) are checked for trace==code file and MAP only.')
 RULE = 'source x configuration; non-trivial = listing carries at least one code line'
 BOUNDS = {'quick': 'radix {16,8,2,36} x share {c,p,a} on all sources (radix other than 16 on generated + 40 corpus sources)', 'thorough': 'radix 2..36 on all sources'}
 ASSUMPTIONS = ['a listing unit wider than one byte is the little- or big-endian value of its bytes, consistently within one source']
